@@ -52,10 +52,12 @@ func (g *Gen) DeepCase() (*spec.Path, interface{}) {
 	short := g.R.Intn(2) == 0 // short: recursive descents skip most levels
 	recs := 2                 // k descents over d levels select O(d^k) branches: keep k small
 	dups := 5                 // selectors that select the walked child twice double the result: at most 2^5
+	mult := 1                 // estimated number of results (each one is a deep sub-document that the monitors render): kept <= 2048
 	for i := 0; i < depth; {
 		lv := levels[i]
-		if i > 0 && recs > 0 && (short && g.R.Intn(3) != 0 || !short && g.R.Intn(12) == 0) {
+		if i > 0 && recs > 0 && mult*(depth-i) <= 2048 && (short && g.R.Intn(3) != 0 || !short && g.R.Intn(12) == 0) {
 			recs--
+			mult *= depth - i
 			// `..` then an exact step of some deeper level
 			p.Steps = append(p.Steps, spec.Step{Kind: spec.KRec})
 			i += g.R.Intn(depth - i)
@@ -77,11 +79,13 @@ func (g *Gen) DeepCase() (*spec.Path, interface{}) {
 			st = spec.Step{Kind: spec.KWild, Bracket: g.R.Intn(2) == 0}
 		case x == 9 && lv.array:
 			st = spec.Step{Kind: spec.KUnion, Subs: []spec.Sub{{Kind: spec.SSlice, Start: ip(int64(lv.index))}}}
-		case x == 10 && lv.array && dups > 0:
+		case x == 10 && lv.array && dups > 0 && mult <= 1024:
 			dups--
+			mult *= 2
 			st = spec.Step{Kind: spec.KUnion, Subs: []spec.Sub{{Kind: spec.SIndex, N: int64(lv.index)}, {Kind: spec.SWild}}}
-		case !lv.array && dups > 0:
+		case !lv.array && dups > 0 && mult <= 1024:
 			dups--
+			mult *= 2
 			st = spec.Step{Kind: spec.KMulti, Items: []spec.MItem{{Key: lv.key}, {Key: g.key()}}}
 		default:
 			st = spec.Step{Kind: spec.KWild}
